@@ -421,12 +421,41 @@ func isLenMinus(info *types.Info, idx ast.Expr, base ast.Expr) bool {
 }
 
 // auditedLengths: invariants that are not visible as a test.
+// Keys: function | shape of the indexed expression (kind and type of its root, then the selected fields) — not its name.
 var auditedLengths = map[string]string{
-	"config/parse.CommentToString|c":       "go/parser delivers comment text that starts with // or /* (and /* comments end with */): len ≥ 2 resp. ≥ 4; the inner c[0] access is under an explicit len(c) == 0 early exit",
-	"builder.ToString|err.Path":            "ToString's caller guarantee (C13.R1) gives len(err.Path) ≥ 1",
-	"xtype.ambiguousMatchError|ambNames":   "only called from FindField's default arm of `switch len(matches)` after cases 0 and 1, with one name per match: len ≥ 2",
-	"xtype.FindExactField|exactMatch.Path": "every StructField produced by findAllFields carries a path that ends in the matched name (append(path, obj.Name())): len ≥ 1",
-	"builder.mapField|lift":                "reached only when a pointer hop happened (condition != nil), which requires at least one path element and hence one appended lift entry; on the Func branch one more is appended",
+	"config/parse.CommentToString|local:string":          "go/parser delivers comment text that starts with // or /* (and /* comments end with */): len ≥ 2 resp. ≥ 4; the inner c[0] access is under an explicit len(c) == 0 early exit",
+	"builder.ToString|param:*builder.Error.Path":         "ToString's caller guarantee (C13.R1) gives len(err.Path) ≥ 1",
+	"xtype.ambiguousMatchError|param:[]string":           "only called from FindField's default arm of `switch len(matches)` after cases 0 and 1, with one name per match: len ≥ 2",
+	"xtype.FindExactField|local:*xtype.StructField.Path": "every StructField produced by findAllFields carries a path that ends in the matched name (append(path, obj.Name())): len ≥ 1",
+	"builder.mapField|local:[]*builder.Path":             "reached only when a pointer hop happened (condition != nil), which requires at least one path element and hence one appended lift entry; on the Func branch one more is appended",
+}
+
+// shapeOf describes an expression by the kind and type of its root identifier and the fields selected from it
+// (`param:*builder.Error.Path`, `local:[]string`), so that audit rows do not depend on variable names.
+func shapeOf(info *types.Info, fi *FuncInfo, e ast.Expr) string {
+	switch x := ast.Unparen(e).(type) {
+	case *ast.Ident:
+		o := info.ObjectOf(x)
+		if o == nil {
+			return x.Name
+		}
+		kind := "local"
+		sig := fi.Obj.Type().(*types.Signature)
+		for i := 0; i < sig.Params().Len(); i++ {
+			if sig.Params().At(i) == o {
+				kind = "param"
+			}
+		}
+		if sig.Recv() == o {
+			kind = "recv"
+		}
+		return kind + ":" + types.TypeString(o.Type(), func(p *types.Package) string { return p.Name() })
+	case *ast.SelectorExpr:
+		return shapeOf(info, fi, x.X) + "." + x.Sel.Name
+	case *ast.IndexExpr:
+		return shapeOf(info, fi, x.X) + "[]"
+	}
+	return exprString(e)
 }
 
 // lengthFact: is len(base) ≥ need established at node n?
@@ -536,7 +565,7 @@ func lengthFact(p *Prog, fi *FuncInfo, base ast.Expr, need int64, stack []ast.No
 		}
 	}
 	// loop induction: for i := 0; i < len(x); i++ { x[i] } is non-constant and not examined here
-	if why, ok := auditedLengths[p.anchorFor(fi, fnPartsOf(mapKeys(auditedLengths)))+"|"+bs]; ok {
+	if why, ok := auditedLengths[p.anchorFor(fi, fnPartsOf(mapKeys(auditedLengths)))+"|"+shapeOf(info, fi, base)]; ok {
 		return true, "audited: " + why
 	}
 	return false, "no fact found"
